@@ -38,6 +38,63 @@ Proof. unfold is_var, tag_of, is_none. destruct (strip_paren a); try reflexivity
 Lemma is_call_not_none a : is_call a = true -> is_none a = false.
 Proof. unfold is_call, tag_of, is_none. destruct (strip_paren a); try reflexivity. discriminate. Qed.
 
+(* top-level shape of an expression result: a node or None; an ExpValue has exactly one Python field,
+   which comes last *)
+Definition exp_shape (t : tree) : Prop :=
+  match t with
+  | Node tag _ _ _ fs =>
+      tag = tExpValue -> exists hs v, fs = hs ++ [v] /\ forallb is_hidden hs = true /\ is_hidden v = false
+  | _ => is_none t = true
+  end.
+
+Lemma is_none_exp_shape a : is_none a = true -> exp_shape a.
+Proof. destruct a; cbn [exp_shape]; intros H; try exact H. discriminate H. Qed.
+
+Lemma exp_shape_not_hidden a : exp_shape a -> is_hidden a = false.
+Proof. destruct a; cbn [exp_shape is_hidden]; intros H; try reflexivity; discriminate H. Qed.
+
+Lemma hid_list_hidden a : forallb is_hidden (hid_list a) = true.
+Proof. destruct a; reflexivity. Qed.
+
+Lemma filter_hidden_all hs : forallb is_hidden hs = true -> filter is_hidden hs = hs.
+Proof.
+  induction hs as [|x r IH]; [reflexivity|]. cbn [forallb filter]. intros H.
+  apply andb_true_iff in H. destruct H as [H1 H2]. rewrite H1, IH by exact H2. reflexivity.
+Qed.
+
+Lemma visible_hidden_all hs : forallb is_hidden hs = true -> visible hs = [].
+Proof.
+  unfold visible. induction hs as [|x r IH]; [reflexivity|]. cbn [forallb filter]. intros H.
+  apply andb_true_iff in H. destruct H as [H1 H2]. rewrite H1, IH by exact H2. reflexivity.
+Qed.
+
+(* the condition of a short-if: exp.value and the hidden entries of exp, together all of exp *)
+Lemma cond_parts a : exp_shape a -> (tag_of a =? tExpValue) = true ->
+  exists s e sh hs v, a = Node tExpValue s e sh (hs ++ [v]) /\ hidden_of a = hs /\ first_field a = v.
+Proof.
+  intros Hs Ht. destruct a as [tag s e sh fs| | | | | | | |]; cbn [exp_shape] in Hs;
+    try (unfold tag_of in Ht; unfold is_none in Hs; destruct (strip_paren _); discriminate).
+  unfold tag_of in Ht. cbn [strip_paren] in Ht. apply Z.eqb_eq in Ht. subst tag.
+  destruct (Hs eq_refl) as (hs & v & -> & Hh & Hv). exists s, e, sh, hs, v. split; [reflexivity|].
+  unfold hidden_of, first_field, visible. cbn [strip_paren]. rewrite !filter_app. cbn [filter].
+  rewrite Hv. cbn [negb]. rewrite filter_hidden_all by exact Hh. fold (visible hs).
+  rewrite visible_hidden_all by exact Hh. rewrite app_nil_r. split; reflexivity.
+Qed.
+
+Lemma wfl_app_inv hi a b : wfl hi (a ++ b) -> wfl hi a /\ wfl hi b.
+Proof.
+  induction a as [|x a IH]; cbn [app ParserProofs.wfl]; [intros H; split; [exact I | exact H]|].
+  intros [H1 H2]. destruct (IH H2) as [H3 H4]. repeat split; assumption.
+Qed.
+
+Lemma sig_last a b d : a < b -> sigb ts (b - 1) = true -> last (sig a b) d = b - 1.
+Proof.
+  intros Hab Hs. rewrite <- (sig_app ts a (b - 1) b) by lia.
+  assert (E : sig (b - 1) b = [b - 1]).
+  { replace b with (b - 1 + 1) at 2 by lia. apply sig_single; [lia | intros; lia | exact Hs]. }
+  rewrite E. apply last_last.
+Qed.
+
 Definition fence_wf (mx : option Z) : Prop :=
   match mx with Some f => f <= len /\ nl_or_end ts f | None => True end.
 
@@ -47,26 +104,31 @@ Definition pre (p : Z) (mx : option Z) : Prop := 0 <= p /\ p <= len /\ p <= lim 
 Definition frame (p : Z) (mx : option Z) (p1 : Z) (mx1 : option Z) : Prop :=
   mx1 = mx /\ p <= p1 /\ p1 <= len /\ p1 <= lim mx.
 
+(* _chunk: always a Chunk node spanning [p, final cursor) *)
 Definition postT (p : Z) (mx : option Z) : post tree := fun t p1 mx1 =>
-  frame p mx p1 mx1 /\ leaves t = sig p p1 /\ wf p1 t.
+  frame p mx p1 mx1 /\ leaves t = sig p p1 /\ wf p1 t /\ (exists fs, t = Node tChunk p p1 false [Lst fs]).
 (* with progress: a result that is not None consumed at least one token *)
 Definition postP (p : Z) (mx : option Z) : post tree := fun t p1 mx1 =>
-  frame p mx p1 mx1 /\ leaves t = sig p p1 /\ wf p1 t /\ (is_none t = false -> p < p1).
+  frame p mx p1 mx1 /\ leaves t = sig p p1 /\ wf p1 t /\ is_hidden t = false /\ (is_none t = false -> p < p1).
 Definition postE (p : Z) (mx : option Z) : post tree := fun t p1 mx1 =>
-  frame p mx p1 mx1 /\ leaves t = sig p p1 /\ wf p1 t /\ end_ok t p1 /\ (is_none t = false -> p < p1).
+  frame p mx p1 mx1 /\ leaves t = sig p p1 /\ wf p1 t /\ end_ok t p1 /\ exp_shape t /\ (is_none t = false -> p < p1).
 Definition postL (p : Z) (mx : option Z) : post (list tree) := fun l p1 mx1 =>
   frame p mx p1 mx1 /\ flat_map leaves l = sig p p1 /\ wfl p1 l.
 Definition postF (first : tree) (p : Z) (mx : option Z) : post tree := fun t p1 mx1 =>
-  frame p mx p1 mx1 /\ leaves t = leaves first ++ sig p p1 /\ wf p1 t.
+  frame p mx p1 mx1 /\ leaves t = leaves first ++ sig p p1 /\ wf p1 t /\ is_hidden t = false.
 Definition postFE (first : tree) (p : Z) (mx : option Z) : post tree := fun t p1 mx1 =>
-  frame p mx p1 mx1 /\ leaves t = leaves first ++ sig p p1 /\ wf p1 t /\ end_ok t p1.
+  frame p mx p1 mx1 /\ leaves t = leaves first ++ sig p p1 /\ wf p1 t /\ end_ok t p1 /\ exp_shape t.
 (* functions whose "None" is literally None, returned with the cursor where it was *)
 Definition postN (p : Z) (mx : option Z) : post tree := fun t p1 mx1 =>
-  frame p mx p1 mx1 /\ leaves t = sig p p1 /\ wf p1 t /\ (is_none t = true -> t = PNone /\ p1 = p) /\
-  (is_none t = false -> p < p1).
+  frame p mx p1 mx1 /\ leaves t = sig p p1 /\ wf p1 t /\ is_hidden t = false /\
+  (is_none t = true -> t = PNone /\ p1 = p) /\ (is_none t = false -> p < p1).
 (* _var / _varlist: None is returned without resetting the cursor (the caller resets it) *)
 Definition postV (p : Z) (mx : option Z) : post tree := fun t p1 mx1 =>
   frame p mx p1 mx1 /\ wf p1 t /\ (is_none t = false -> leaves t = sig p p1 /\ p < p1) /\ (is_none t = true -> t = PNone).
+(* the rest of a statement whose first keyword (token i, accepted just before p) is passed in *)
+Definition postK (i : Z) (p : Z) (mx : option Z) : post tree := fun t p1 mx1 =>
+  frame p mx p1 mx1 /\ leaves t = [i] ++ sig p p1 /\ wf p1 t /\ is_hidden t = false /\ is_none t = false.
+
 Section Step.
 Variable R : funs.
 Variable k : Z.
@@ -82,9 +144,9 @@ Hypothesis H_explist_loop : forall p mx, G p -> pre p mx -> wpx (r_explist_loop 
 Hypothesis H_varlist_loop : forall p mx, G p -> pre p mx -> wpx (r_varlist_loop R) (postL p mx) p mx.
 Hypothesis H_fields_loop : forall p mx, G p -> pre p mx -> wpx (r_fields_loop R) (postL p mx) p mx.
 Hypothesis H_elseif_loop : forall p mx, G p -> pre p mx -> wpx (r_elseif_loop R) (postL p mx) p mx.
-Hypothesis H_precur : forall first p mx, G p -> pre p mx -> wf p first ->
+Hypothesis H_precur : forall first p mx, G p -> pre p mx -> wf p first -> is_hidden first = false ->
   wpx (r_precur R first) (postF first p mx) p mx.
-Hypothesis H_binop : forall first p mx, G p -> pre p mx -> wf p first -> end_ok first p ->
+Hypothesis H_binop : forall first p mx, G p -> pre p mx -> wf p first -> end_ok first p -> exp_shape first ->
   wpx (r_binop R first) (postFE first p mx) p mx.
 
 (* G' p: a function of this level may be entered at cursor p *)
@@ -99,6 +161,7 @@ Ltac wf_tac :=
   | |- wf _ (Lst _) => apply wf_lst; wfl_tac
   | |- wf _ (Paren _ _ _) => cbn [ParserProofs.wf]; wf_tac
   | |- wf _ (Hid _) => cbn [ParserProofs.wf]; wf_tac
+  | |- True => exact I
   | |- wf _ (Tok _ _) => exact I
   | |- wf _ (Kw _) => exact I
   | |- wf _ PNone => exact I
@@ -124,6 +187,23 @@ Ltac end_tac :=
         | apply is_none_end_ok; first [ assumption | apply negb_false_iff; assumption ]
         | intros ee H; first [ cbn [end_of strip_paren] in H; injection H as <-; reflexivity | discriminate H ] ].
 
+Ltac hidden_tac :=
+  first [ reflexivity | assumption | apply exp_shape_not_hidden; assumption
+        | match goal with |- is_hidden (opt_tok ?n) = false => destruct n as [[? ?]|]; reflexivity end ].
+
+Ltac shape_tac :=
+  first [ assumption
+        | apply is_none_exp_shape; first [ assumption | apply negb_false_iff; assumption ]
+        | cbn [exp_shape]; let H := fresh in intros H;
+          first [ discriminate H
+                | vm_compute in H; discriminate H
+                | lazymatch goal with
+                  | |- exists hs v, [?a; ?b] = _ /\ _ => exists [a], b; repeat split; reflexivity
+                  | |- exists hs v, [?a] = _ /\ _ => exists [], a; repeat split; hidden_tac
+                  | |- exists hs v, hid_list ?p ++ [?t] = _ /\ _ =>
+                      exists (hid_list p), t; split; [reflexivity | split; [apply hid_list_hidden | hidden_tac]]
+                  end ] ].
+
 (* turn "not None -> progress" facts into plain inequalities where the result is known not to be None *)
 Ltac prog_facts :=
   repeat match goal with
@@ -137,26 +217,28 @@ Ltac prog_facts :=
          end.
 
 Ltac side :=
-  prog_facts;
+  prog_facts; cbn [ParserProofs.lim] in *;
   lazymatch goal with
   | |- G _ => unfold G, G' in *; lia
   | |- G' _ => unfold G, G' in *; lia
-  | |- pre _ _ => unfold pre; repeat split; first [lia | assumption]
+  | |- pre _ _ => unfold pre, fence_wf; cbn [ParserProofs.lim]; repeat split; first [lia | assumption]
   | |- wf _ _ => wf_tac
   | |- end_ok _ _ => first [assumption | end_tac]
+  | |- exp_shape _ => shape_tac
+  | |- is_hidden _ = false => hidden_tac
   | |- _ => first [lia | assumption]
   end.
 
 Ltac open_post H :=
-  unfold postT, postP, postE, postL, postF, postFE, postN, postV, frame in H;
-  let Hm := fresh "Hm" in destruct H as ((Hm & ? & ? & ?) & H); subst;
+  unfold postT, postP, postE, postL, postF, postFE, postN, postV, postK, frame in H;
+  cbn [ParserProofs.lim] in H;
+  let Hm := fresh "Hm" in destruct H as ((Hm & ? & ? & ?) & H);
+  match type of Hm with ?v = _ => subst v end;
   repeat match type of H with _ /\ _ => let H1 := fresh "Hp" in destruct H as [H1 H] end.
 
 (* use a specification lemma for the computation at the head *)
 Ltac call L :=
   eapply wpx_conseq; [ eapply L; side | cbv beta; let H := fresh "Hpost" in intros ? ? ? H; open_post H ].
-
-Ltac call_known := fail "no specification for this call".
 
 (* a dropped None result is literally None and left the cursor alone *)
 Ltac none_facts :=
@@ -174,6 +256,8 @@ Ltac none_facts :=
          | E : is_none ?a = true, Hn : is_none ?a = true -> ?a = PNone |- _ =>
              rewrite (Hn E) in *; clear Hn
          end.
+
+Ltac call_known := fail "no specification for this call".
 
 Ltac wprim :=
   lazymatch goal with
@@ -203,7 +287,10 @@ Ltac wprim :=
   | |- wpx (r_precur R _) _ _ _ => call H_precur
   | |- wpx (r_binop R _) _ _ _ => call H_binop
   | |- wpx (if ?b then _ else _) _ _ _ => let E := fresh "E" in destruct b eqn:E; none_facts; prog_facts
-  | |- wpx (match ?x with _ => _ end) _ _ _ => destruct x
+  | |- wpx (match (if ?b then _ else _) with _ => _ end) _ _ _ =>
+      let E := fresh "E" in destruct b eqn:E; none_facts; prog_facts
+  | |- wpx (match ?x with _ => _ end) _ _ _ =>
+      first [ is_var x; destruct x | let E := fresh "E" in destruct x eqn:E ]
   | |- wpx _ _ _ _ => call_known
   end; cbv beta match zeta.
 
@@ -211,7 +298,8 @@ Ltac wprim :=
 Ltac leaves_tac :=
   repeat match goal with
          | |- context [if ?b then _ else _] =>
-             lazymatch b with true => fail | false => fail | _ => destruct b end
+             lazymatch b with true => fail | false => fail
+             | _ => let E := fresh "E" in destruct b eqn:E; none_facts end
          end;
   repeat match goal with |- context [opt_tok ?n] => is_var n; destruct n as [[? ?]|] end;
   cbn [leaves flat_map opt_tok];
@@ -243,7 +331,7 @@ Ltac none_goal :=
 
 (* the final goal of a branch: a postcondition *)
 Ltac done_tac :=
-  unfold postT, postP, postE, postL, postF, postFE, postN, postV, frame;
+  unfold postT, postP, postE, postL, postF, postFE, postN, postV, postK, frame;
   repeat match goal with
          | |- _ /\ _ => split
          | |- ?x = ?x => reflexivity
@@ -254,6 +342,10 @@ Ltac done_tac :=
          | |- wf _ _ => wf_tac
          | |- wfl _ _ => wfl_tac
          | |- end_ok _ _ => end_tac
+         | |- exists fs, Node _ _ _ _ _ = Node _ _ _ _ _ => eexists; reflexivity
+         | |- exp_shape _ => shape_tac
+         | |- is_none (Node _ _ _ _ _) = false => reflexivity
+         | |- is_hidden _ = false => first [ reflexivity | assumption | hidden_tac ]
          | |- is_none _ = true -> _ => none_goal
          | |- is_none _ = false -> _ < _ => first [ let H := fresh in intros H; prog_facts; lia | none_goal ]
          | |- is_none _ = false -> _ /\ _ =>
@@ -331,9 +423,9 @@ Proof. start. unfold function_def. wp. Qed.
 Ltac ck13 := first [ck12 | call function_spec].
 Ltac call_known ::= ck13.
 
-Lemma precur_spec first p mx : G' p -> pre p mx -> wf p first ->
+Lemma precur_spec first p mx : G' p -> pre p mx -> wf p first -> is_hidden first = false ->
   wpx (precur_def ts R first) (postF first p mx) p mx.
-Proof. start. intros Hwf. unfold precur_def. wp. Qed.
+Proof. start. intros Hwf Hnh. unfold precur_def. wp. Qed.
 Ltac ck14 := first [ck13 | call precur_spec].
 Ltac call_known ::= ck14.
 
@@ -347,9 +439,9 @@ Proof. start. unfold exp_term_def. wp. Qed.
 Ltac ck16 := first [ck15 | call exp_term_spec].
 Ltac call_known ::= ck16.
 
-Lemma binop_spec first p mx : G' p -> pre p mx -> wf p first -> end_ok first p ->
+Lemma binop_spec first p mx : G' p -> pre p mx -> wf p first -> end_ok first p -> exp_shape first ->
   wpx (binop_def ts binops unops R first) (postFE first p mx) p mx.
-Proof. start. intros Hwf Hend. unfold binop_def. wp. Qed.
+Proof. start. intros Hwf Hend Hshape. unfold binop_def. wp. Qed.
 Ltac ck17 := first [ck16 | call binop_spec].
 Ltac call_known ::= ck17.
 
@@ -378,5 +470,143 @@ Proof. start. unfold functioncall_def. wp. Qed.
 Ltac ck22 := first [ck21 | call functioncall_spec].
 Ltac call_known ::= ck22.
 
+Lemma elseif_loop_spec p mx : G' p -> pre p mx -> wpx (elseif_loop_def ts R) (postL p mx) p mx.
+Proof. start. unfold elseif_loop_def. wp. Qed.
+Ltac ck23 := first [ck22 | call elseif_loop_spec].
+Ltac call_known ::= ck23.
+
+Lemma for_spec pos fi p mx : G' p -> pre p mx -> pos <= fi -> fi + 1 = p ->
+  wpx (for_def ts R pos fi) (postK fi p mx) p mx.
+Proof. start. intros Hpos Hfi. unfold for_def. wp. Qed.
+
+Lemma local_spec pos li p mx : G' p -> pre p mx -> pos <= li -> li + 1 = p ->
+  wpx (local_def ts R pos li) (postK li p mx) p mx.
+Proof. start. intros Hpos Hli. unfold local_def. wp. Qed.
+
+Lemma laststat_spec p mx : G' p -> pre p mx -> wpx (laststat_def ts R) (postN p mx) p mx.
+Proof. start. unfold laststat_def. wp. Qed.
+Ltac ck24 := first [ck23 | call laststat_spec].
+Ltac call_known ::= ck24.
+
+Lemma if_spec pos ii p mx : G p -> pre p mx -> pos <= ii -> ii + 1 = p ->
+  wpx (if_def ts R pos ii) (postK ii p mx) p mx.
+Proof.
+  start. intros Hpos Hii. unfold if_def. wp.
+  (* what remains is the short form: the fence is the first newline after the condition *)
+  assert (z = p1) by (apply Hp4; exact E). subst z.
+  destruct (next_newline_spec ts p1) as (Hn1 & Hn2 & _); [lia|].
+  assert (Hnn : next_newline ts p1 <= lim mx).
+  { destruct mx as [f|]; cbn [ParserProofs.lim] in *; [|lia]. destruct Hfw as [Hf1 Hf2].
+    apply next_newline_le; [lia | exact Hf1 | exact Hf2]. }
+  assert (Hsig : sigb ts (p1 - 1) = true).
+  { unfold sigb, ParserProofs.tok_at. rewrite E0, E1. unfold tok_eqb in E2. apply andb_true_iff in E2.
+    destruct E2 as [E2 _]. apply kclass_eqb_eq in E2. cbn [tk] in E2. unfold is_trivia. rewrite E2. reflexivity. }
+  change (newline_after ts p1) with (next_newline ts p1).
+  remember (next_newline ts p1) as nn eqn:Enn.
+  wp.
+  all: match goal with Ht : (tag_of ?x =? tExpValue) = true, Hsh : exp_shape ?x |- _ =>
+         destruct (cond_parts x Hsh Ht) as (s0 & e0 & sh0 & hs & v & -> & Hh & Hv); rewrite Hh, Hv;
+         match goal with |- context [hs ++ [v; ?b]] =>
+           replace (hs ++ [v; b]) with ((hs ++ [v]) ++ [b]) by (rewrite <- app_assoc; reflexivity) end;
+         match goal with
+         | Hl : leaves (Node _ _ _ _ _) = _, Hw : wf _ (Node _ _ _ _ _), Hpr : is_none (Node _ _ _ _ _) = false -> _ |- _ =>
+             cbn [leaves] in Hl; apply wf_node_inv in Hw; destruct Hw as (Hs1 & Hs2 & HX & _);
+             apply (wfl_mono ts _ e0 p1) in HX; [|exact Hs2];
+             assert (Hprog : p < p1) by (apply Hpr; reflexivity);
+             remember (hs ++ [v]) as X eqn:EX;
+             first [ leaves_tac
+                   | apply wf_node; [lia | lia | wfl_tac |];
+                     intros _ _; eexists _, _, _; split; [reflexivity|]; unfold cond_close; rewrite removelast_last, Hl;
+                     rewrite sig_last by (first [lia | exact Hsig]); replace (p1 - 1 + 1) with p1 by lia; rewrite <- Enn; lia ]
+         end
+       end.
+Qed.
+
+Ltac ck25 := first [ck24 | call if_spec | call for_spec | call local_spec].
+Ltac call_known ::= ck25.
+
+Lemma stat_spec p mx : G' p -> pre p mx -> wpx (stat_def ts R) (postN p mx) p mx.
+Proof. start. unfold stat_def, assign_ops. wp. Qed.
+Ltac ck26 := first [ck25 | call stat_spec].
+Ltac call_known ::= ck26.
+
+Lemma stats_loop_spec p mx : G' p -> pre p mx -> wpx (stats_loop_def ts R) (postL p mx) p mx.
+Proof. start. unfold stats_loop_def. wp. Qed.
+Ltac ck27 := first [ck26 | call stats_loop_spec].
+Ltac call_known ::= ck27.
+
+Lemma chunk_spec p mx : G' p -> pre p mx -> wpx (chunk_def ts R) (postT p mx) p mx.
+Proof. start. unfold chunk_def. wp. Qed.
+
 End Step.
+
+(* ---------------------------------------------------------------- induction over the fuel levels *)
+Definition specs (k : Z) (R : funs) : Prop :=
+  (forall p mx, len - p < k -> pre p mx -> wpx (r_exp R) (postE p mx) p mx) /\
+  (forall p mx, len - p < k -> pre p mx -> wpx (r_chunk R) (postT p mx) p mx) /\
+  (forall p mx, len - p < k -> pre p mx -> wpx (r_semis R) (postL p mx) p mx) /\
+  (forall p mx, len - p < k -> pre p mx -> wpx (r_stats_loop R) (postL p mx) p mx) /\
+  (forall p mx, len - p < k -> pre p mx -> wpx (r_namelist_loop R) (postL p mx) p mx) /\
+  (forall p mx, len - p < k -> pre p mx -> wpx (r_funcname_loop R) (postL p mx) p mx) /\
+  (forall p mx, len - p < k -> pre p mx -> wpx (r_explist_loop R) (postL p mx) p mx) /\
+  (forall p mx, len - p < k -> pre p mx -> wpx (r_varlist_loop R) (postL p mx) p mx) /\
+  (forall p mx, len - p < k -> pre p mx -> wpx (r_fields_loop R) (postL p mx) p mx) /\
+  (forall p mx, len - p < k -> pre p mx -> wpx (r_elseif_loop R) (postL p mx) p mx) /\
+  (forall first p mx, len - p < k -> pre p mx -> wf p first -> is_hidden first = false ->
+     wpx (r_precur R first) (postF first p mx) p mx) /\
+  (forall first p mx, len - p < k -> pre p mx -> wf p first -> end_ok first p -> exp_shape first ->
+     wpx (r_binop R first) (postFE first p mx) p mx).
+
+Lemma specs_bottom : specs 0 bottom.
+Proof.
+  unfold specs. repeat split; intros; exfalso;
+    match goal with H : pre _ _ |- _ => destruct H as (? & ? & _) end; lia.
+Qed.
+
+Lemma specs_step k R : specs k R -> specs (k + 1) (step ts binops unops R).
+Proof.
+  intros (H1 & H2 & H3 & H4 & H5 & H6 & H7 & H8 & H9 & H10 & H11 & H12).
+  unfold specs. cbn [step r_exp r_chunk r_semis r_stats_loop r_namelist_loop r_funcname_loop r_explist_loop
+                     r_varlist_loop r_fields_loop r_elseif_loop r_precur r_binop].
+  repeat split; intros.
+  - eapply exp_spec; try eassumption. unfold G'. lia.
+  - eapply chunk_spec; try eassumption. unfold G'. lia.
+  - eapply semis_spec; try eassumption. unfold G'. lia.
+  - eapply stats_loop_spec; try eassumption. unfold G'. lia.
+  - eapply namelist_loop_spec; try eassumption. unfold G'. lia.
+  - eapply funcname_loop_spec; try eassumption. unfold G'. lia.
+  - eapply explist_loop_spec; try eassumption. unfold G'. lia.
+  - eapply varlist_loop_spec; try eassumption. unfold G'. lia.
+  - eapply fields_loop_spec; try eassumption. unfold G'. lia.
+  - eapply elseif_loop_spec; try eassumption. unfold G'. lia.
+  - eapply precur_spec; try eassumption. unfold G'. lia.
+  - eapply binop_spec; try eassumption. unfold G'. lia.
+Qed.
+
+Lemma specs_level n : specs (Z.of_nat n) (level ts binops unops n).
+Proof.
+  induction n as [|n IH]; [exact specs_bottom|].
+  replace (Z.of_nat (S n)) with (Z.of_nat n + 1) by lia. cbn [level]. apply specs_step, IH.
+Qed.
+
+(* the whole parse: process_tokens *)
+Lemma parse_spec :
+  match parse ts binops unops with
+  | Ok (root, e) => 0 <= e <= len /\ leaves root = sig 0 e /\ wf e root /\ exists fs, root = Node tChunk 0 e false [Lst fs]
+  | Err err => err <> OutOfFuel
+  end.
+Proof.
+  unfold parse, parse_with_fuel.
+  destruct (specs_level (fuel_for ts)) as (_ & H2 & _).
+  specialize (H2 0 None). unfold wpx in H2.
+  destruct (r_chunk (level ts binops unops (fuel_for ts)) (0, None)) as [[t [p1 mx1]]|e].
+  - destruct H2 as ((_ & Ha & Hb & _) & Hl & Hw & Hs).
+    + unfold fuel_for, zlen. lia.
+    + unfold pre. cbn [ParserProofs.lim fence_wf]. pose proof (zlen_nonneg ts). repeat split; lia.
+    + destruct (is_none t); [discriminate|]. cbn [fst]. repeat split; assumption.
+  - apply H2.
+    + unfold fuel_for, zlen. lia.
+    + unfold pre. cbn [ParserProofs.lim fence_wf]. pose proof (zlen_nonneg ts). repeat split; lia.
+Qed.
+
 End S.
